@@ -721,6 +721,24 @@ func (a *Adversary) forgedNV(h uint64) bool {
 		}
 	}
 	m := a.mkNV(leader, h, v, votes, spi.HashOf(E), E, v)
+	if variant != 5 && a.r.Intn(2) == 0 {
+		// when a genuine vote carries a proof, re-propose its block as a correct leader would: the forged votes are the only flaw
+		var lockHash []byte
+		var lockBlk *spi.Blk
+		best := int64(-1)
+		for _, f := range a.w.Seen {
+			fm := f.Msg
+			if fm == nil || fm.Env != ref.EnvVC || fm.H != h || fm.V != v || !f.Honest || f.To != leader || fm.Vote.Proof == nil || fm.Vote.Proof.PPRef == nil {
+				continue
+			}
+			if int64(fm.Vote.Proof.PPRef.V) > best {
+				best, lockHash, lockBlk = int64(fm.Vote.Proof.PPRef.V), fm.Vote.Proof.PPRef.Hash, fm.Block
+			}
+		}
+		if lockHash != nil && lockBlk != nil {
+			m = a.mkNV(leader, h, v, votes, lockHash, lockBlk, v)
+		}
+	}
 	// aim at the nodes that have not committed this height
 	a.sendSome(leader, a.at(h), m, 90)
 	return true
